@@ -406,7 +406,8 @@ pub fn run_world_c(plan: &Rc<Plan>, which: &str) -> Result<CHistory, String> {
                         sh2.core.progress();
                         w.handle_event(it, &cli).await;
                         if wr_rng.chance(1, 4) || i + 1 == n_items {
-                            Arbitrary::<SimWorld, String>::write(&mut w, format!("write-{i}")).await;
+                            let text = if i % 5 == 4 { String::new() } else { format!("write-{i}") };
+                            Arbitrary::<SimWorld, String>::write(&mut w, text).await;
                         }
                     }
                     *d2.borrow_mut() = Some(w);
@@ -427,7 +428,12 @@ pub fn run_world_c(plan: &Rc<Plan>, which: &str) -> Result<CHistory, String> {
             let (a, la) = Rec::new(&sh, rand_stats());
             let (b, lb) = Rec::new(&sh, rand_stats());
             let (sa, sb) = (a.stats, b.stats);
-            let w = writer::Or::new(a, b, or_pred);
+            // a STATEFUL predicate (`Or` takes an `FnMut`): it must be asked exactly once per event
+            let mut asked = 0u64;
+            let w = writer::Or::new(a, b, move |ev: &parser::Result<Event<Cucumber<SimWorld>>>, c: &cli::Compose<cli::Empty, cli::Empty>| {
+                asked += 1;
+                or_pred(ev, c) ^ (asked % 3 == 0)
+            });
             let r = drive(&core, &sh, w, comp(), items, &mut |w| stats_of!(w, ""));
             for i in 0..6 {
                 numbers.insert(format!("left{i}"), sa[i] as i64);
@@ -883,6 +889,10 @@ pub fn c13(plan: &Plan, ch: &CHistory, out: &mut Vec<Violation>) {
         "tee" => {
             cmp_streams("C13", "tee", "tee-left", &strip(&ch.outputs["left"]), input, out);
             cmp_streams("C13", "tee", "tee-right", &strip(&ch.outputs["right"]), input, out);
+            let hf = ch.numbers["failed"] > 0 || ch.numbers["parsing_errors"] > 0 || ch.numbers["hook_errors"] > 0;
+            if (ch.numbers["has_failed"] != 0) != hf {
+                out.push(v("C13", "tee-has-failed", format!("Tee::execution_has_failed() = {} disagrees with its getters", ch.numbers["has_failed"])));
+            }
             if ch.writes["left"] != ch.writes["right"] || ch.writes["left"].is_empty() {
                 out.push(v("C13", "tee-writes", format!("arbitrary writes differ: left {:?} right {:?}", ch.writes["left"], ch.writes["right"])));
             }
@@ -894,10 +904,16 @@ pub fn c13(plan: &Plan, ch: &CHistory, out: &mut Vec<Violation>) {
             }
         }
         "or" => {
-            let l: Vec<Ev> = input.iter().filter(|e| or_left(e)).cloned().collect();
-            let r: Vec<Ev> = input.iter().filter(|e| !or_left(e)).cloned().collect();
+            // the predicate is stateful: the k-th question (1-based) is flipped when k % 3 == 0
+            let to_left = |i: usize, e: &Ev| or_left(e) ^ ((i as u64 + 1) % 3 == 0);
+            let l: Vec<Ev> = input.iter().enumerate().filter(|(i, e)| to_left(*i, e)).map(|(_, e)| e.clone()).collect();
+            let r: Vec<Ev> = input.iter().enumerate().filter(|(i, e)| !to_left(*i, e)).map(|(_, e)| e.clone()).collect();
             cmp_streams("C13", "or", "or-left", &strip(&ch.outputs["left"]), &l, out);
             cmp_streams("C13", "or", "or-right", &strip(&ch.outputs["right"]), &r, out);
+            let hf = ch.numbers["failed"] > 0 || ch.numbers["parsing_errors"] > 0 || ch.numbers["hook_errors"] > 0;
+            if (ch.numbers["has_failed"] != 0) != hf {
+                out.push(v("C13", "or-has-failed", format!("Or::execution_has_failed() = {} disagrees with its getters", ch.numbers["has_failed"])));
+            }
             for (i, k) in ["passed", "skipped", "failed", "retried", "parsing_errors", "hook_errors"].iter().enumerate() {
                 let want = ch.numbers[&format!("left{i}")] + ch.numbers[&format!("right{i}")];
                 if ch.numbers[*k] != want {
